@@ -140,23 +140,24 @@ type CallInfo struct {
 // Exec is the state of one path.
 type Exec struct {
 	*World
-	PC         []*smt.Term
-	Domain     []*smt.Term // input-domain constraints (regexes) only needed to make models realistic
-	prefix     []int
-	decisions  []int
-	pos        int
-	pending    *[][]int
-	Stats      *Stats
-	depth      int
-	steps      int
-	obSeq      int
-	ZeroHook   ZeroHook
-	LocHook    func(t types.Type) (Loc, bool)
-	Events     []Event
-	User       map[string]any
-	LocalStubs map[string]Stub // harness-specific contracts, consulted before World.Stubs
-	panicking  *GoPanic
-	callStack  []*ssa.Function
+	PC           []*smt.Term
+	Domain       []*smt.Term // input-domain constraints (regexes) only needed to make models realistic
+	prefix       []int
+	decisions    []int
+	pos          int
+	pending      *[][]int
+	Stats        *Stats
+	depth        int
+	steps        int
+	obSeq        int
+	ZeroHook     ZeroHook
+	LocHook      func(t types.Type) (Loc, bool)
+	Events       []Event
+	User         map[string]any
+	OpaqueNested bool
+	LocalStubs   map[string]Stub // harness-specific contracts, consulted before World.Stubs
+	panicking    *GoPanic
+	callStack    []*ssa.Function
 }
 
 // Event is an observable action recorded by stubs or hooks.
